@@ -603,7 +603,13 @@ def run_scripts(chk, area, c_exe, m_exe, scripts, oracle=None, batch=4000):
 def run_impl_only(chk, area, c_exe, scripts, oracle):
     """scripts with operations the model does not have: executed on the real code only and judged
     by the independent oracle"""
-    outs, _ = run_exe(c_exe, scripts, env=HARNESS_ENV)
+    jobs = int(os.environ.get("VERIF_JOBS", str(min(16, os.cpu_count() or 8))))
+    chunk = max(1, (len(scripts) + jobs - 1) // jobs)
+    chunks = [scripts[i:i + chunk] for i in range(0, len(scripts), chunk)]
+    d = mktmp("impl")
+    with ThreadPoolExecutor(max_workers=jobs) as ex:
+        rs = list(ex.map(lambda ch: run_exe(c_exe, ch, env=HARNESS_ENV, workdir=d)[0], chunks))
+    outs = [o for r in rs for o in r]
     for sc, c in zip(scripts, outs):
         chk.count_script(area.NAME, sc, c)
         w = oracle(chk.prop, sc, c)
